@@ -140,10 +140,10 @@ static void check_flush_point(Run &r, const char *what, bool exact) {
 		violation("C12:flush-point-incomplete", "%s: decoder left %zu of %zu output bytes unconsumed", what, r.out.size() - (size_t)D.total_in, r.out.size());
 }
 
-enum LoopEnd { LE_DONE, LE_OPTIONS_ERROR, LE_PROG_ERROR, LE_DEAD };
+enum LoopEnd { LE_DONE, LE_OPTIONS_ERROR, LE_PROG_ERROR, LE_DEAD, LE_MT_BOUNDARY };
 
 // One action with `n` new input bytes, repeated protocol-correctly until it completes.
-static LoopEnd action_loop(Run &r, lzma_action action, size_t n, const char *what) {
+static LoopEnd action_loop(Run &r, lzma_action action, size_t n, const char *what, bool stop_at_mt_boundary = false) {
 	lzma_stream &s = r.s;
 	static uint8_t dummy[1];
 	const uint8_t *in = r.P.data() ? r.P.data() + r.fed : dummy;
@@ -169,6 +169,9 @@ static LoopEnd action_loop(Run &r, lzma_action action, size_t n, const char *wha
 		}
 		if (ret == LZMA_OK) {
 			if (action == LZMA_RUN && s.avail_in == 0) { r.fed += consumed; return LE_DONE; }
+			// threaded encoder: the call came back (output full / time-out) with input still pending exactly where a Block of block_size
+			// bytes has just been completed - no Block is open, the next one has not been started
+			if (stop_at_mt_boundary && consumed > 0 && r.mt_block_size && (r.fed + consumed - r.block_start) % r.mt_block_size == 0) { r.fed += consumed; return LE_MT_BOUNDARY; }
 		} else if (ret == LZMA_BUF_ERROR) {
 			if (action == LZMA_RUN && s.avail_in == 0) { r.fed += consumed; return LE_DONE; }   // idle LZMA_RUN calls in a row: documented, harmless
 			// non-fatal; legitimate only when this call had no room (the drawn windows may be empty or already full)
@@ -413,6 +416,7 @@ extern "C" int LLVMFuzzerTestOneInput(const uint8_t *data, size_t size) {
 			uint32_t k = c.u(15), lc = 0, lp = 0, n = 0; for (uint32_t a = 0; a <= 4; ++a) for (uint32_t bq = 0; a + bq <= 4; ++bq) if (n++ == k) { lc = a; lp = bq; }
 			op.lc = lc; op.lp = lp; op.pb = c.u(5); op.alt = c.u(3); op.inv = c.u(8); }
 		r.ops.push_back(op);
+		if (r.ek == EK_MT && g.block_size && op.kind == OP_FEED && op.n > g.block_size && c.rare(110)) { Op u; u.kind = OP_UPDATE; u.ukind = U_CHAIN; u.alt = c.u(3); r.ops.push_back(u); }   // candidates for the mid-feed update at a Block boundary
 	}
 	{ Op fin; fin.kind = OP_FINISH; if (c.chance(90)) { fin.n = draw_feed(c, g.lz.nice_len); if (total + fin.n > cap) fin.n = 0; total += fin.n; } r.ops.push_back(fin); }
 	Recipe rec = draw_recipe(c, 1, g.lz.dict_size); rec.len = (uint32_t)total; if (rec.kind == RK_LITERAL) { rec.kind = RK_COPY_EDITS; rec.lit.clear(); }
@@ -466,7 +470,16 @@ extern "C" int LLVMFuzzerTestOneInput(const uint8_t *data, size_t size) {
 		char what[64]; snprintf(what, sizeof what, "op %zu %s(%u)", i, op_names[op.kind], op.n);
 		bool completed_flush = false;
 		switch (op.kind) {
-		case OP_FEED: { LoopEnd e = action_loop(r, LZMA_RUN, op.n, what); note_fed(r, before);
+		case OP_FEED: {
+			// threaded encoder, a feed followed by a chain update: the update may also be made in the middle of the feed, at a moment when
+			// lzma_code has returned with input pending right at an automatic Block boundary (the encoder accepts it: no Block is open)
+			const bool mid = r.ek == EK_MT && r.mt_block_size && i + 1 < r.ops.size() && r.ops[i + 1].kind == OP_UPDATE && r.ops[i + 1].ukind == U_CHAIN && op.n > r.mt_block_size;
+			LoopEnd e = action_loop(r, LZMA_RUN, op.n, what, mid); note_fed(r, before);
+			if (e == LE_MT_BOUNDARY) {
+				const uint64_t rest = before + op.n - r.fed; count("mt_update_offered_at_automatic_block_boundary_with_input_pending");
+				close_segment(r); do_update(r, r.ops[i + 1]); r.ops[i + 1].kind = OP_FEED; r.ops[i + 1].n = 0;   // the update has been made; the op is spent
+				const uint64_t b2 = r.fed; e = action_loop(r, LZMA_RUN, (size_t)rest, what); note_fed(r, b2);
+			}
 			if (e == LE_PROG_ERROR) violation("C12:unexpected-code", "%s returned LZMA_PROG_ERROR", what);
 			if (e == LE_OPTIONS_ERROR) violation("C12:unexpected-code", "%s returned LZMA_OPTIONS_ERROR", what);
 			if (e == LE_DEAD) r.dead = true;
